@@ -1,12 +1,109 @@
 /-
-  UnytModel.Ops.C09 — opcodes of the C09 model (prefix `c09.`).
+  UnytModel.Ops.C09 — opcodes of the C09 model (prefix `c09.`): the regenerated equivalence
+  table read back (`dump.*`, `formula`), the wrapper decision (`route`) and the numbers
+  (`convert`) — all through the definitions the theorems of `UnytProofs/C09.lean` are about.
 -/
 import UnytModel.DriverBase
+import UnytModel.Generated.EquivFormulas
 
 namespace Unyt
+open Unyt.Equiv
 
-def opsC09 : Handler := fun _st fields =>
+namespace Equiv
+
+/-- rendering used to compare with the tracer's own reading of a chain -/
+def Formula.str : Formula → String
+  | .atom a => a
+  | .lit q => ratStr q
+  | .mul a b => s!"({a.str} * {b.str})"
+  | .div a b => s!"({a.str} / {b.str})"
+  | .sub a b => s!"({a.str} - {b.str})"
+  | .add a b => s!"({a.str} + {b.str})"
+  | .sqrt a => s!"sqrt({a.str})"
+  | .pow a q => s!"({a.str})**({ratStr q})"
+
+def parseMode (s : String) : Option Mode :=
+  if s == "copy" then some .copy else if s == "inplace" then some .inplace else none
+
+def constsFloat : List (String × Float) :=
+  Generated.equivConstants.map (fun c => (c.1, (OfBits.ofBits c.2.1 : Float)))
+
+def routeStr : Except Err Route → String
+  | .ok .plain => "ok\tplain"
+  | .ok (.via f) => s!"ok\tvia\t{f.str}"
+  | .error e => s!"err\t{e.str}"
+
+end Equiv
+
+def stepC09 (st : DriverState) (fields : List String) : Option String :=
   match fields with
+  | ["c09.dump.const", k] =>
+    match Generated.equivConstants.find? (fun c => c.1 == k) with
+    | some c => some s!"ok\t{c.2.1}\t{c.2.2.str}"
+    | none => some "none"
+  | ["c09.dump.equiv", k] =>
+    match findEquiv Generated.equivalences k with
+    | some e =>
+      let ds := ";".intercalate (e.dims.map Dim.str)
+      let ps := ";".intercalate (e.params.map (fun p => s!"{p.1}={p.2}"))
+      some s!"ok\t{e.cls}\t{ds}\t{ps}\t{e.branches.length}"
+    | none => some "none"
+  | ["c09.pow_refuses"] =>
+    some (match Generated.powRefuses with | some e => s!"ok\t{e.str}" | none => "ok\tnone")
+  | ["c09.names"] => some ("ok\t" ++ ";".intercalate (Generated.equivalences.map (·.name)))
+  -- the formula a branch denotes: copy = returned value, inplace = final buffer (alias reading),
+  -- inplace-ssa = final buffer (returned objects are values of their own)
+  | ["c09.formula", k, mode, a, b] =>
+    match findEquiv Generated.equivalences k, Dim.parse a, Dim.parse b with
+    | some e, some da, some db =>
+      match e.branch da db with
+      | none => some "none"
+      | some br =>
+        let f := if mode == "copy" then br.formula
+                 else if mode == "inplace" then br.inplaceFormula true
+                 else if mode == "inplace-ssa" then br.inplaceFormula false
+                 else if mode == "copy-buffer" then br.copyBuffer
+                 else none
+        match f with
+        | some f => some s!"ok\t{f.str}"
+        | none => some "none"
+    | _, _, _ => some "bad-op"
+  -- the wrapper decision: equivalence name or `-` for `equivalence=None`
+  | ["c09.route", mode, eq, a, b] =>
+    match parseMode mode, Dim.parse a, Dim.parse b with
+    | some m, some da, some db =>
+      some (routeStr (inUnitsRoute Generated.equivalences m da db (if eq == "-" then none else some eq)))
+    | _, _, _ => some "bad-op"
+  | ["c09.has_equivalent", eq, a] =>
+    match Dim.parse a with
+    | some da =>
+      match hasEquivalent Generated.equivalences da eq with
+      | .ok b => some s!"ok\t{if b then 1 else 0}"
+      | .error e => some s!"err\t{e.str}"
+    | none => some "bad-op"
+  -- the numbers: mode, equivalence or `-`, input unit (5 fields), target unit (5 fields),
+  -- value bits, then `name=bits` keyword arguments separated by `;` (or empty)
+  | ["c09.convert", mode, eq, s1, o1, d1, c1, f1, s2, o2, d2, c2, f2, x, kw] =>
+    match parseMode mode, parseUnitV s1 o1 d1 c1 f1, parseUnitV s2 o2 d2 c2 f2, fb x with
+    | some m, some u, some tg, some xv =>
+      let kws : Option (List (String × Float)) :=
+        if kw == "" then some [] else
+        (kw.splitOn ";").mapM (fun item => match item.splitOn "=" with
+          | [n, b] => (fb b).map (fun v => (n, v))
+          | _ => none)
+      match kws with
+      | none => some "bad-op"
+      | some kws =>
+        match convertValue Generated.powRefuses st.pre (st.luts[0]!) Generated.equivalences constsFloat kws m u xv tg
+            (if eq == "-" then none else some eq) with
+        | .ok v => some s!"ok\t{bitsStr v}"
+        | .error e => some s!"err\t{e.str}"
+    | _, _, _, _ => some "bad-op"
   | _ => none
+
+def opsC09 : Handler := fun st fields =>
+  match stepC09 st fields with
+  | some r => some (st, r)
+  | none => none
 
 end Unyt
